@@ -875,6 +875,9 @@ func c10H5(r *Run, rep *core.Report) {
 			if !okv {
 				okv, why = helperOK(f, 0)
 			}
+			if !okv && nilFlagHelper(r, reach, f, in.Block()) {
+				okv, why = true, "panic taken only when a flag parameter is set, and every caller sets it to 'the function argument is nil' (argument validation, tested at the call site)"
+			}
 			if !okv && f.Pkg == r.P.Cache && ctorOnlyReach(r, f) && !ctorPanicAt(r.P.InstrPos(in)) {
 				okv, why = true, "no evaluated path of the constructors reaches it (the configuration is normalised before)"
 			}
@@ -988,6 +991,56 @@ func globalEverSet(r *Run, g *ssa.Global) bool {
 		})
 	}
 	return set
+}
+
+// nilFlagHelper: f panics only on the true edge of a test of one of its boolean parameters, and at every call site
+// reachable from the API the argument for that parameter is the comparison 'X == nil' of a function value the caller
+// was handed (mustNotBeNilFunc(valueFn == nil, ...)).
+func nilFlagHelper(r *Run, reach map[*ssa.Function]bool, f *ssa.Function, b *ssa.BasicBlock) bool {
+	var flag *ssa.Parameter
+	for d := b; d != nil && flag == nil; d = d.Idom() {
+		if len(d.Preds) != 1 {
+			continue
+		}
+		p := d.Preds[0]
+		iff, ok := p.Instrs[len(p.Instrs)-1].(*ssa.If)
+		if !ok || p.Succs[0] != d {
+			continue
+		}
+		if prm, isP := iff.Cond.(*ssa.Parameter); isP && typeName(prm.Type()) == "bool" {
+			flag = prm
+		}
+	}
+	if flag == nil {
+		return false
+	}
+	idx := paramIndexOf(f, flag)
+	sites := core.CallSitesOf(r.P.Funcs, f)
+	n := 0
+	for _, site := range sites {
+		g := site.Parent()
+		if !reach[g] {
+			continue
+		}
+		n++
+		if idx < 0 || idx >= len(site.Common().Args) {
+			return false
+		}
+		bo, ok := site.Common().Args[idx].(*ssa.BinOp)
+		if !ok || bo.Op != token.EQL {
+			return false
+		}
+		okSite := false
+		for _, pair := range [][2]ssa.Value{{bo.X, bo.Y}, {bo.Y, bo.X}} {
+			if core.IsNilConst(pair[1]) && isFuncTyped(pair[0].Type()) && funcArgument(g, pair[0], 0) {
+				okSite = true
+			}
+		}
+		if !okSite {
+			return false
+		}
+	}
+	return n > 0
 }
 
 // nilFuncArgGuard: the block is entered only through the 'is nil' edge of a test of a function-typed parameter.
